@@ -50,6 +50,7 @@ from __future__ import annotations
 import itertools
 import json
 import multiprocessing
+import os
 import re
 import time
 import warnings
@@ -891,7 +892,9 @@ class H:
         return True
 
     # ------------------------------------------------------------------ operation alphabet in the current state
-    def gen_ops(self, full):
+    def gen_ops(self, level):
+        """level 'F': full alphabet, 'R': reduced alphabet, 'O': observations only (reduced keys and clicks)."""
+        full = level == "F"
         ops = [["key", k] for k in (KEYS_FULL if full else KEYS_RED)]
         if not full and any(n.kind == "ListBox" for n in self.containers()):
             ops += [["key", "page down"], ["key", "end"]]
@@ -904,6 +907,8 @@ class H:
                     elif full and ch not in (" ", "."):
                         seen[ch + "$"] = (c, r)  # last cell of the letter as well
             ops += [["click", c, r] for (c, r) in seen.values()]
+        if level == "O":
+            return ops
         conts = self.containers()
         for n in conts:
             cm = n.children()
@@ -1124,8 +1129,8 @@ def run_one(tree, mode, ops):
     return h, done
 
 
-def explore(acc, tree, mode, maxlen, full_levels):
-    """Every history of length <= maxlen; level i uses the full alphabet iff i < full_levels."""
+def explore(acc, tree, mode, levels):
+    """Every history of length <= len(levels); step i draws from the alphabet levels[i] (see H.gen_ops)."""
     count = 0
 
     def rec(prefix):
@@ -1133,9 +1138,9 @@ def explore(acc, tree, mode, maxlen, full_levels):
         h, done = run_one(tree, mode, prefix)
         acc.add(h, prefix)
         count += 1
-        if not done or len(prefix) >= maxlen:
+        if not done or len(prefix) >= len(levels):
             return
-        for op in h.gen_ops(len(prefix) < full_levels):
+        for op in h.gen_ops(levels[len(prefix)]):
             rec([*prefix, op])
 
     rec([])
@@ -1148,8 +1153,8 @@ def _task(t):
     n = 0
     with _Env():
         if kind == "explore":
-            _k, tree, mode, maxlen, full_levels = t
-            n = explore(acc, tree, mode, maxlen, full_levels)
+            _k, tree, mode, levels = t
+            n = explore(acc, tree, mode, levels)
         elif kind == "random":
             _k, sd, ntrees, nhist, length = t
             r = rng(sd)
@@ -1167,7 +1172,7 @@ def _task(t):
                         n += 1
                         if not done:
                             break
-                        cand = h.gen_ops(True)
+                        cand = h.gen_ops("F")
                         # bias towards keys and clicks, which are few among the candidates
                         heads = [c for c in cand if c[0] in ("key", "click")]
                         ops = [*ops, r.choice(heads) if heads and r.random() < 0.45 else r.choice(cand)]
@@ -1204,27 +1209,27 @@ def _tasks(tier, seed):
     tasks = []
     flat, small, nested, d3 = flat_trees(), _small_flat(), nested_trees(), depth3_trees()
 
-    def ex(tree, mode, maxlen, full_levels):
-        a_full, a_red = 60 + 25 * len(json.dumps(tree)) // 20, 28 + 8 * len(json.dumps(tree)) // 20
+    def ex(tree, mode, levels):
+        size = len(json.dumps(tree)) // 20
         cost = 1
-        for lvl in range(maxlen):
-            cost *= a_full if lvl < full_levels else a_red
-        tasks.append((("explore", tree, mode, maxlen, full_levels), cost))
+        for lvl in levels:
+            cost *= {"F": 60 + 25 * size, "R": 28 + 8 * size, "O": 10 + size}[lvl]
+        tasks.append((("explore", tree, mode, levels), cost * (1 + size)))
 
     if tier == "quick":
         for t in flat:
             for mode in "AB":
-                ex(t, mode, 1, 1)
+                ex(t, mode, "F")
         for i, t in enumerate(small):
-            ex(t, "AB"[i % 2], 2, 0)
+            ex(t, "AB"[i % 2], "RR")
         for i, t in enumerate(PAIRS):
-            ex(t, "BA"[i % 2], 2, 0)
+            ex(t, "BA"[i % 2], "RR")
         for i, t in enumerate(nested):
-            ex(t, "AB"[i % 2], 1, 1 if i % 4 == 0 else 0)
+            ex(t, "AB"[i % 2], "F" if i % 4 == 0 else "R")
         for i, t in enumerate(d3[::3]):
-            ex(t, "AB"[i % 2], 1, 0)
+            ex(t, "AB"[i % 2], "R")
         for i in range(16):
-            tasks.append((("random", seed * 1000 + i, 3, 3, 4), 200))
+            tasks.append((("random", seed * 1000 + i, 3, 3, 4), 2000))
         bound = (
             f"{len(flat)} flat containers (0-3 leaves S/U; Frame with/without header/footer; Overlay): every single operation of the full alphabet, modes A and B; "
             f"{len(small)} of them (<=2 leaves) and {len(PAIRS)} two-level nestings: all histories of length 2 over the reduced alphabet, one mode each; "
@@ -1234,29 +1239,29 @@ def _tasks(tier, seed):
     else:
         for t in flat:
             for mode in "AB":
-                ex(t, mode, 2, 1)
+                ex(t, mode, "FR")
         for i, t in enumerate(small):
-            ex(t, "AB"[i % 2], 3, 0)
+            ex(t, "AB"[i % 2], "RRO")
         for i, t in enumerate(PAIRS):
             for mode in "AB":
-                ex(t, mode, 2, 1)
+                ex(t, mode, "FR")
         for i, t in enumerate(nested):
             for mode in "AB":
-                ex(t, mode, 1, 1)
+                ex(t, mode, "F")
             if i % 2 == 0:
-                ex(t, "AB"[(i // 2) % 2], 2, 0)
+                ex(t, "AB"[(i // 2) % 2], "RO")
         for i, t in enumerate(d3):
             for mode in "AB":
-                ex(t, mode, 1, 1)
+                ex(t, mode, "F")
             if i % 4 == 0:
-                ex(t, "AB"[(i // 4) % 2], 2, 0)
+                ex(t, "AB"[(i // 4) % 2], "RO")
         for i in range(64):
-            tasks.append((("random", seed * 1000 + i, 12, 6, 6), 3000))
+            tasks.append((("random", seed * 1000 + i, 12, 6, 6), 10**6))
         bound = (
             f"{len(flat)} flat containers (0-3 leaves S/U; Frame parts; Overlay): all histories of length <=2 (full alphabet, then reduced), modes A and B; "
-            f"{len(small)} of them (<=2 leaves): all histories of length 3 over the reduced alphabet, one mode each; {len(PAIRS)} two-level nestings: length <=2 (full, reduced), both modes; "
-            f"{len(nested)} two-level nestings: every single operation of the full alphabet in both modes, every second one all reduced histories of length 2; "
-            f"{len(d3)} three-level nestings: single operations (full) in both modes, every fourth all reduced histories of length 2; 768 seeded random depth-3 trees x 6 histories of length 6 (non-exhaustive)"
+            f"{len(small)} of them (<=2 leaves): all histories of two reduced-alphabet operations followed by one key or click, one mode each; {len(PAIRS)} two-level nestings: length <=2 (full, reduced), both modes; "
+            f"{len(nested)} two-level nestings: every single operation of the full alphabet in both modes, every second one also every reduced operation followed by a key or click; "
+            f"{len(d3)} three-level nestings: single operations (full) in both modes, every fourth also reduced operation + key/click; 768 seeded random depth-3 trees x 6 histories of length 6 (non-exhaustive)"
         )
     return tasks, bound
 
@@ -1267,8 +1272,10 @@ def run(tier="quick", seed=0):
     tasks = [t for t, _cost in sorted(tasks, key=lambda tc: -tc[1])]  # longest first
     procs = 16
     ctx = multiprocessing.get_context("fork")
+    cpu0 = sum(os.times()[:4])
     with ctx.Pool(procs) as pool:
         results = pool.map(_task, tasks, chunksize=1)
+    cpu_s = round(sum(os.times()[:4]) - cpu0, 1)
     checks = {}
     for name in RULES:
         c = Check(f"{ID}/{name}", RULES[name], exhaustive=True, bound=bound + f"; root size {ROOT_SIZE}")
@@ -1300,6 +1307,7 @@ def run(tier="quick", seed=0):
         res["failures"] = [dict(d, occurrences=cnt) for _sig, (cnt, d) in sorted(bysig.items(), key=lambda kv: -kv[1][0])][:20]
         res["failure_signatures"] = {sig: cnt for sig, (cnt, _d) in bysig.items()}
         res["histories"] = histories
+        res["cpu_s_all_checks"] = cpu_s
         out.append(res)
     return {"checks": out, "bound": bound + f"; root size {ROOT_SIZE}; {histories} histories"}
 
